@@ -6,6 +6,8 @@
 //! process-killing fault is attributed to it), then its transcript lines.
 mod args;
 mod dom_common;
+mod dom_hdr;
+mod dom_mbi;
 mod mem;
 
 use std::io::Write;
@@ -41,6 +43,8 @@ pub fn res_str(r: Result<String, ()>) -> String {
 fn run_case(ctx: &mut Ctx, dom: &str, a: &[Arg]) {
     match dom {
         "c14" | "align" | "conv" | "conveq" | "elfty" | "fb" | "magic" => dom_common::run(ctx, dom, a),
+        "mbiwalk" | "mbinull" | "iters" => dom_mbi::run(ctx, dom, a),
+        "hdrwalk" | "hdrnull" | "find" | "cksum" => dom_hdr::run(ctx, dom, a),
         _ => ctx.out.push("BADDOMAIN".into()),
     }
 }
